@@ -251,14 +251,18 @@ class ReplayBroken(Exception):
 def confirm(binpaths, b, casefile, outdir, times=3):
     fails = 0
     logs = []
-    for _ in range(times):
+    for k in range(times):
         r, lg = replay_once(binpaths.get(b['name']), b, casefile, outdir)
-        logs.append(lg)
         if r == 'fail':
             fails += 1
+            logs.insert(0, lg)  # the log of a failing replay first: it is the one that gets summarised
+            if k >= 2:
+                break  # after the first three replays one reproduction is enough
         elif r == 'error':
             # the saved case could not be parsed / matched: the machinery is broken, never "flaky"
             raise ReplayBroken('replay of %s is impossible: %s' % (casefile, tail(lg, 5).strip()))
+        else:
+            logs.append(lg)
     return fails, logs
 
 
@@ -366,6 +370,8 @@ def write_evidence(pid, tier, seed, prop, results, extra, wall, violations):
               assumptions=prop.get('assumptions', []), wall_s=round(wall, 2), violations=violations)
     # evidence/ describes /repo only; runs against a scratch tree (mutation sanity) write elsewhere
     evdir = os.path.join(VERIF, 'evidence') if build.REPO == '/repo' else os.path.join(build.build_root(), 'evidence')
+    if os.environ.get('VERIF_EVIDENCE_DIR'):  # sensitivity runs against a deliberately broken /repo (tools/seedrun.py)
+        evdir = os.environ['VERIF_EVIDENCE_DIR']
     os.makedirs(evdir, exist_ok=True)
     path = os.path.join(evdir, pid + '.json')
     tmp = path + '.tmp'
@@ -445,9 +451,10 @@ def check(pid, tier):
         for cf, how in cases:
             if how.startswith('crash') or how == 'hang':
                 cf = try_minimize(binpaths, b, cf, res['outdir'])
-            fails, logs = confirm(binpaths, b, cf, os.path.join(res['outdir'], 'confirm'))
+            ntries = prop.get('confirm_replays', 3)  # racy properties replay more often: one reproduction confirms
+            fails, logs = confirm(binpaths, b, cf, os.path.join(res['outdir'], 'confirm'), times=ntries)
             if fails == 0:
-                notes.append('FLAKY-UNCONFIRMED %s (%s): 0/3 replays failed' % (cf, how))
+                notes.append('FLAKY-UNCONFIRMED %s (%s): 0/%d replays failed' % (cf, how, ntries))
                 continue
             known = matches_known(pid, b, cf, logs[0])
             if known:
@@ -455,7 +462,7 @@ def check(pid, tier):
                 continue
             keep = os.path.join(build.build_root(), 'out', pid, 'violation-%s.case' % hashlib.sha1(open(cf, 'rb').read()).hexdigest()[:12])
             shutil.copyfile(cf, keep)
-            violations.append((keep, '%s in %s (%d/3 replays fail): %s' % (how, b['name'], fails, summarize(logs[0]))))
+            violations.append((keep, '%s in %s (%d/%d replays fail): %s' % (how, b['name'], fails, min(ntries, len(logs)), summarize(logs[0]))))
     if inconclusive:
         extra['inconclusive'] = inconclusive
     if notes:
